@@ -31,7 +31,7 @@ PROPS = {
         trusted=[
             "characters are bytes in this code (len(text)); TokensPerChar is modelled as a rational p/q and the correspondence uses dyadic ratios (1/4, 1/2, 1/8, 1) for which the float64 products are exact",
             "modelled byte-exactly: SizeCalculator.SplitToSize with nil boundaries, FindSplitPointAt, findSentenceEndNear, findWordBoundaryNear (with the rune-boundary fallback), the pull-back to a hard character/token maximum, strings.TrimSpace over the 25 Unicode White_Space code points; termination/conservation/UTF-8 theorems quantify over every size predicate, hence cover the word/sentence/paragraph units whose counters are not modelled",
-            "overlap (GenerateOverlap, ApplyOverlapToChunks) is NOT modelled: it is decided by the property predicates evaluated on the implementation in the harness (suffix of the previous chunk's own text, valid UTF-8, Min/Max bounds) - partial for that clause",
+            "overlap is modelled byte-exactly (coq/model/C13_Overlap.v): OverlapGenerator.GenerateOverlap with characterTail (byte offset, forward to a character start, word preservation, TrimSpace), generateSentenceOverlap / splitIntoSentencesWithPositions, generateParagraphOverlap / splitIntoParagraphs, truncateOverlap, the MinOverlap / MaxOverlap rules and the character fallback, and ApplyOverlapToChunks without heading context. Which runes end a sentence (isSentenceEndRune: letter case, abbreviations, decimal points) is an ORACLE, one bit per rune of the string, read off the implementation through the hook rag.VerifSentenceEnds for the chunk text and for the overlap before truncation; the theorems hold for every oracle. DecodeRuneInString is modelled on valid UTF-8 only (the theorems assume valid_utf8 text, the harness sends valid texts); SentenceCount of the result and IncludeHeadingContext are not modelled",
         ],
         assumptions=["semantic boundaries passed by callers (non-nil boundaries argument) are outside the model"],
     ),
